@@ -155,7 +155,8 @@ def check_failed_write(ctx):
         if rs:
             o = origin_names(body, R.arg_expr(body, body.nodes[rs[0]], 1))
             ctx.check("ordered" in o, inst, "PROVENANCE", body.path, "released ranges come from the filtered, sorted list", body.where(rs[0]), {"src": sorted(o)})
-        mc = ctx.sites(body, R.call("write_buffer::mark_reservation_clean"), inst, exact=1)
+        from rules.common import flag_op_sel
+        mc = ctx.sites(body, flag_op_sel("clean"), inst, exact=1)
         R.guard(ctx, inst, body, mc, R.guard_edges_for_call(body, rs, "Ok"), "reservations are marked clean only after their space was released")
     body = ctx.fn("write_buffer::failed_batch_outcome", inst)
     if body is not None:
@@ -469,24 +470,34 @@ def check_reservation_bits(ctx):
             v = R.arg_expr(b, b.nodes[x], 1)
             ok = v.has_arg(idx=2) and not any(y.k == "bin" for y in v.walk()) and (v.has_call("TryFrom::try_from") or v.has_call("u32::try_from") or v.has_call("try_from"))
             ctx.check(ok, inst, "PROVENANCE", b.path, "the word stored is the sector handed in, checked to fit (try_from), with no arithmetic or flag bits", b.where(x), {"expr": v.show()})
+    from rules.common import FLAG_OPS, flag_mask_ok
+    inline_sites = tuple(x for v in FLAG_OPS.values() for x in v[4])
     R.fieldw_within(ctx, inst + "/writers", "WriteEntry", "work_status",
                     ["write_buffer::reserve_sector", "write_buffer::mark_reservation_dirty", "write_buffer::mark_reservation_clean",
-                     "write_buffer::quarantine_reservation", "write_buffer::clear_reserved_sector", "WriteEntry::new", "write_buffer::process_deletions"], floor=5)
-    for fn, op, const, neg in (("write_buffer::mark_reservation_dirty", "fetch_or", "RESERVATION_DIRTY", False),
-                               ("write_buffer::mark_reservation_clean", "fetch_and", "RESERVATION_DIRTY", True),
-                               ("write_buffer::quarantine_reservation", "fetch_or", "RESERVATION_QUARANTINED", False)):
-        b = ctx.fn(fn, inst)
-        if b is None:
+                     "write_buffer::quarantine_reservation", "write_buffer::clear_reserved_sector", "WriteEntry::new", "write_buffer::process_deletions"] + list(inline_sites), floor=5)
+    for kind, (fn, op, const, neg, sites) in sorted(FLAG_OPS.items()):
+        # the one-bit helper, or - when it was inlined - the same operation at its reviewed call site
+        bodies = [ctx.prog.fn(fn)] if ctx.prog.find(fn) else []
+        where = "helper"
+        if not bodies:
+            bodies = [ctx.prog.fn(x) for x in sites if ctx.prog.find(x)]
+            where = "inlined"
+        n_ops = 0
+        for b in bodies:
+            for x in R.field_write("WriteEntry", "work_status", ops=[op])(b):
+                n_ops += 1
+                v = R.arg_expr(b, b.nodes[x], 1)
+                ctx.check(flag_mask_ok(v, const, neg), inst, "PIN", b.path, "%s touches only the %s bit (the sector bits are preserved)" % (fn.rsplit("::", 1)[-1], const), b.where(x), {"expr": v.show()})
+        ctx.check(n_ops >= 1, inst, "anchor", "-", "the %s operation on WriteEntry.work_status exists (%s; found %d)" % (kind, where, n_ops), None)
+    # a reviewed inline site may change work_status only by one of those single-flag operations
+    for x in inline_sites:
+        if not ctx.prog.find(x):
             continue
-        st = ctx.sites(b, R.field_write("WriteEntry", "work_status", ops=[op]), inst, exact=1)
-        for x in st:
-            v = R.arg_expr(b, b.nodes[x], 1)
-            if neg:
-                ok = v.k == "un" and v.extra == "Not" and v.a[0].k == "const" and v.a[0].has_const(name=const)
-            else:
-                ok = v.k == "const" and v.has_const(name=const)
-            ctx.check(ok, inst, "PIN", b.path, "%s touches only the %s bit (the sector bits are preserved)" % (fn.rsplit("::", 1)[-1], const), b.where(x), {"expr": v.show()})
-
+        b = ctx.prog.fn(x)
+        for n in R.field_write("WriteEntry", "work_status")(b):
+            v = R.arg_expr(b, b.nodes[n], 1)
+            ok = any(flag_mask_ok(v, c_, ng) and R.call_matches(b.nodes[n].ev, "Atomic::" + o_) for (_f, o_, c_, ng, st) in FLAG_OPS.values() if x in st)
+            ctx.check(ok, inst, "PIN", b.path, "a flag operation written out at a call site of its helper is that helper's single-flag operation", b.where(n), {"expr": v.show()})
 
 
 def check_release_len(ctx):
